@@ -14,13 +14,14 @@ RULE = ('the real InitialOperator.linform (with the real boundary-refined domain
         'integral over element x domain (time integrated analytically, graded tensor rule towards the boundary point) for u0 in {x, '
         'sin(x) y, random quadratics} (1e-6); (3) evaluate(t, x) against the exact potential for t >= 0.05*side^2 (1e-5). '
         'distinct = distinct (domain, element, datum / relation)')
+RULE += ' ' + '(2b) linform_vector: entry i is the load of element i for reordered lists, warm cache, and a history of six DIFFERENT pooled calls (use_mp=True; other lists, another operator, longer list, cached operator) in one process, bit for bit.'
 ASSUMPTIONS = [
     'exact potentials are derived here (not taken from problems.py): u0=1 on a union of rectangles, sin product on the (pi/unit) square',
     'elements are built like the estimators build them (DummyElement on the real piece parametrisation) and as leaves of real refined meshes',
     'references carry two resolutions; unconverged cases are counted as inconclusive cases',
 ]
 REQUIRED = {t: ['domain:UnitSquare', 'domain:PiSquare', 'domain:LShape', 'datum:one', 'datum:sine', 'time:starts-at-0', 'time:later', 'time:early-small', 'time:deep-near-zero',
-                'level>=4', 'rel:linearity', 'rel:additivity-time', 'rel:additivity-space', 'rel:direct-reference', 'fn:evaluate', 'fn:linform_vector',
+                'level>=4', 'rel:linearity', 'rel:additivity-time', 'rel:additivity-space', 'rel:direct-reference', 'fn:evaluate', 'fn:linform_vector', 'fn:linform_vector:pool-history',
                 'piece:long-side-half']
             for t in ('quick', 'thorough')}
 TIMEOUT = {'quick': 1500, 'thorough': 7200}
@@ -376,6 +377,29 @@ def run_rel(spec, acc):
             if len(vec) != len(order) or any(float(v) != single[id(e)] for v, e in zip(vec, order)):
                 acc.violation('load-vector-entry-mismatch', '%s: linform_vector on the %s list does not return the load of element i at position i' % (domain, oname),
                               {'domain': domain, 'order': oname})
+        # the pool path, as a history of DIFFERENT calls in one process: other lists, another operator (other datum), shorter and longer
+        # lists, with and without a cache directory; every entry bit-identical to the single-element call
+        import multiprocessing
+        real_cpu = multiprocessing.cpu_count
+        multiprocessing.cpu_count = lambda: 3
+        try:
+            single_x = {id(e): InitialOperator(bmesh, fams['x'], initial_mesh=factory).linform(e)[0] for e in leaves}
+            op_q = InitialOperator(bmesh, fams['quad'], initial_mesh=factory)
+            op_x = InitialOperator(bmesh, fams['x'], initial_mesh=factory)
+            op_xc = InitialOperator(bmesh, fams['x'], initial_mesh=factory, cache_dir=cdir)
+            hist = [('first', op_q, leaves[:4], single), ('other-list', op_q, leaves[2:6], single), ('other-operator', op_x, leaves[1:5], single_x),
+                    ('longer-list', op_q, list(reversed(leaves)), single), ('cached-operator', op_xc, leaves[3:] + leaves[:1], single_x),
+                    ('first-again', op_q, leaves[:4], single)]
+            for hname, op_h, lst, ref_h in hist:
+                vec = op_h.linform_vector(lst, use_mp=True)
+                acc.case('%s|vector-pool|%s' % (domain, hname), None)
+                acc.seen('fn:linform_vector:pool-history')
+                if len(vec) != len(lst) or any(float(v) != ref_h[id(e)] for v, e in zip(vec, lst)):
+                    acc.violation('load-vector-entry-mismatch:pool:' + hname,
+                                  '%s: linform_vector(use_mp=True), call "%s" of a history of different calls in one process, does not return the load of '
+                                  'element i at position i' % (domain, hname), {'domain': domain, 'call': hname, 'history': [h[0] for h in hist]})
+        finally:
+            multiprocessing.cpu_count = real_cpu
     except Exception as ex:
         fr = repo_frame(ex)
         if fr is None:
